@@ -256,3 +256,96 @@ def make_marker_cache(marker_lookup, reference_gene_names, query_gene_names, out
         marker_lookup=marker_lookup, reference_gene_names=list(reference_gene_names),
         query_gene_names=list(query_gene_names), output_cache_path=str(output_path),
         taxonomy_tree=tree, log=None, min_markers=min_markers)
+
+
+# ---------------------------------------------------------------------------
+# mapping with on-the-fly markers (cli/map_to_on_the_fly_markers.py)
+# ---------------------------------------------------------------------------
+# The on-the-fly mapper builds its three sub-runners with `Runner(args=[], input_data=cfg)`.  The argschema
+# constructor cannot run in this sandbox (marshmallow 3: DefaultSchema.make_object() got an unexpected keyword
+# 'many'), so inside the simulator -- never in /repo -- ArgSchemaParser.__init__ is replaced by a STUB that does the
+# one thing the run bodies rely on: self.args = input_data completed with the defaults declared in the runner's own
+# schema classes (read from the schema, not copied).  Schema validation (types, post_load cross-field checks) is NOT
+# reproduced; the drivers only build configurations that are valid.  Everything from `run()` down is the real code.
+
+_STUB = {'installed': False}
+
+
+def _schema_defaults(schema_cls, data):
+    import marshmallow
+    out = dict(data or {})
+    for name, f in schema_cls._declared_fields.items():
+        if isinstance(f, marshmallow.fields.Nested):
+            nested = f.nested if isinstance(f.nested, type) else type(f.nested)
+            if name in out and out[name] is not None:
+                out[name] = _schema_defaults(nested, out[name])
+            elif getattr(f, 'required', False):
+                out[name] = _schema_defaults(nested, {})
+            else:
+                out.setdefault(name, None)
+            continue
+        if name in out:
+            continue
+        d = getattr(f, 'default', marshmallow.missing)
+        if d is marshmallow.missing:
+            d = None
+        out[name] = d() if callable(d) else d
+    return out
+
+
+def install_argschema_stub():
+    if _STUB['installed']:
+        return
+    import argschema
+    import copy
+    import logging
+
+    def _init(self, input_data=None, schema_type=None, output_schema_type=None, args=None,
+              logger_name='argschema-stub'):
+        schema = schema_type or self.default_schema
+        self.args = _schema_defaults(schema, copy.deepcopy(input_data or {}))
+        self.logger = logging.getLogger(logger_name)
+    argschema.ArgSchemaParser.__init__ = _init
+    _STUB['installed'] = True
+
+
+def otf_config(query_path, stats_path, out_dir, tmp_dir, tag='otf', **kw):
+    ta = dict(bootstrap_iteration=kw.pop('bootstrap_iteration', 5),
+              bootstrap_factor=kw.pop('bootstrap_factor', 0.7),
+              bootstrap_factor_lookup=kw.pop('bootstrap_factor_lookup', None),
+              chunk_size=kw.pop('chunk_size', 4),
+              normalization=kw.pop('normalization', 'raw'),
+              rng_seed=kw.pop('rng_seed', 11),
+              n_runners_up=kw.pop('n_runners_up', 2),
+              min_markers=kw.pop('min_markers', 3))
+    refm = dict(n_valid=kw.pop('n_valid', 10), exact_penetrance=kw.pop('exact_penetrance', False),
+                precomputed_path_list=kw.pop('precomputed_path_list', None))
+    for k in ('p_th', 'q1_th', 'q1_min_th', 'qdiff_th', 'qdiff_min_th', 'log2_fold_th', 'log2_fold_min_th'):
+        if k in kw:
+            refm[k] = kw.pop(k)
+    qm = dict(n_per_utility=kw.pop('n_per_utility', 3), n_per_utility_override=None, genes_at_a_time=1)
+    out_dir = str(out_dir)
+    cfg = dict(query_path=str(query_path),
+               extended_result_path=os.path.join(out_dir, tag + '.json'),
+               hdf5_result_path=None,
+               csv_result_path=os.path.join(out_dir, tag + '.csv'),
+               summary_metadata_path=None, obsm_key=None, obsm_clobber=False,
+               tmp_dir=str(tmp_dir) if tmp_dir is not None else None,
+               extended_result_dir=None, drop_level=None, flatten=False, max_gb=1.0, cloud_safe=False,
+               n_processors=kw.pop('n_processors', 3),
+               precomputed_stats={'path': str(stats_path)},
+               query_markers=qm, reference_markers=refm, type_assignment=ta)
+    for k in list(kw):
+        if k in cfg:
+            cfg[k] = kw.pop(k)
+    if kw:
+        raise KeyError('unknown on-the-fly config keys %r' % (list(kw),))
+    return cfg
+
+
+def run_otf(cfg):
+    ensure_repo_on_path()
+    install_argschema_stub()
+    from cell_type_mapper.cli.map_to_on_the_fly_markers import OnTheFlyMapper
+    r = OnTheFlyMapper(args=[], input_data=cfg)
+    return r.run()
